@@ -1,7 +1,7 @@
 #!/bin/bash
 # usage: merge_branch.sh <branch> — merge an agent branch, resolving the generated index files by regeneration
 cd "$(dirname "$0")/.."
-git stash -q 2>/dev/null; git merge --no-edit "$1" >/dev/null 2>&1
+git add -A; git commit -qm "work in progress before merging $1" 2>/dev/null; git merge --no-edit "$1" >/dev/null 2>&1
 for f in THEOREMS.md MANIFEST.json known_findings.json lean/Dcg.lean lean/Dcg/Driver/All.lean evidence/C01.json evidence/C10.json lean/Dcg/Gen/EscTables.lean lean/Dcg/Gen/Templates.lean; do git checkout --ours -- "$f" 2>/dev/null; done
 for f in $(git diff --name-only --diff-filter=U | grep "^evidence/"); do git checkout --theirs -- "$f"; done
 python3 tools/regen_index.py; python3 tools/summarize.py > THEOREMS.md 2>/dev/null; for f in THEOREMS.md MANIFEST.json known_findings.json lean/Dcg.lean lean/Dcg/Driver/All.lean; do git add "$f"; done; git add evidence lean/Dcg/Gen 2>/dev/null
